@@ -6,12 +6,12 @@ def run(tier, seed, replay=None):
     rep = Report("C13", tier, seed)
     sun_selfcheck(rep)
     calendar_and_ra_models(rep)
-    args = ["--sites", 2, "--windows", 60, "--triples", 2000] if tier == "thorough" else ["--windows", 40, "--triples", 3000]
+    args = ["--sites", 4, "--windows", 60, "--triples", 2000] if tier == "thorough" else ["--windows", 40, "--triples", 3000]
     info, events = validate(rep, "C13", "c13", args, heap="12g" if tier == "thorough" else "6g", stateful=True, timeout=6000)
     rep.traces = info.get("histories", 0) - rep.violations
     rep.distinct_nontrivial = sum(1 for e in events if e["ev"] == "hday") - 2 * info.get("histories", 0)
     rep.rule = ("a history = consecutive calendar dates at one site (quick: 22-day windows around the March equinox, February/March and "
-                "the year end for 40 seeded site-years + 3000 random triples; thorough: additionally every consecutive date 1600..2399 at 2 sites); "
+                "the year end for 40 seeded site-years + 3000 random triples; thorough: additionally every consecutive date 1600..2399 at 4 sites); "
                 "TLC carries the two previous days as state and checks first and second differences; distinct_nontrivial = number of triples checked")
     for e in events[:4]:
         rep.sample(e)
